@@ -42,9 +42,8 @@ typedef struct SillMap { FeatureMap m_FeatureMap; LangFeaturePair *m_langFeats; 
 typedef struct Face { SillMap m_Sill; } Face;
 typedef uint32 chunk_t;
 typedef uint16 flags_t;
-typedef struct FeatureRef {
-    const Face *m_face; FeatureSetting *m_nameValues;
-    chunk_t m_mask, m_max; uint32 m_id; uint16 m_nameid, m_numSet; flags_t m_flags; byte m_bits, m_index;
+typedef struct FeatureRef {      /* the data members of class FeatureRef, copied from the header on every run */
+/*@extract {'kind':'members', 'file':'src/inc/FeatureMap.h', 'scope': r'class FeatureRef\s*\{', 'names':['m_face','m_nameValues','m_mask','m_max','m_id','m_nameid','m_numSet','m_flags','m_bits','m_index']}@*/
 } FeatureRef;
 /*@extract {'file':'src/inc/FeatureMap.h', 'scope': r'class FeatureRef\s*\{', 'kind':'range', 'start': r'static const uint8\s+SIZEOF_CHUNK', 'end': r';', 'end_inclusive': True,
             'subs':[[r'sizeof\(chunk_t\)\*8', '32', 1]]}@*/
